@@ -7,17 +7,3 @@ Set Printing Width 100000000.
 Set Printing Depth 100000000.
 Fixpoint bs (l : list nat) : string := match l with [] => EmptyString | n :: r => String (Ascii.ascii_of_nat n) (bs r) end.
 Definition T_ (b : bool) : string := if b then "T" else "F".
-Definition t208 : pt := (mkPacket (mkPtok 37 "MetaData" 1 0 0) (Some (mkPtok 3 "}" 19 0 64)) [(DMeta (mkMetaDef (mkSpan (mkPtok 37 "MetaData" 1 0 0) (mkPtok 3 "}" 2 0 3)) (mkPtok 37 "MetaData" 1 0 0) (mkPtok 42 "Types" 1 9 1) (mkPtok 2 "{" 1 15 2) [] (mkPtok 3 "}" 2 0 3))); (DPacket (mkPacketDef (mkSpan (mkPtok 34 "root" 3 0 4) (mkPtok 3 "}" 7 0 28)) (Some (mkPtok 34 "root" 3 0 4)) (mkPtok 35 "packet" 3 5 5) (mkPtok 42 "Leg" 3 12 6) (mkPtok 2 "{" 3 16 7) [(mkFieldWithAttr (mkSpan (mkPtok 32 "@leftPad" 4 4 8) (mkPtok 40 "," 4 40 16)) [(FAPadding (mkSpan (mkPtok 32 "@leftPad" 4 4 8) (mkPtok 6 ")" 4 22 11)) (mkPaddingAttr (mkSpan (mkPtok 32 "@leftPad" 4 4 8) (mkPtok 6 ")" 4 22 11)) (mkPtok 32 "@leftPad" 4 4 8) (mkPtok 8 "(" 4 13 9) (Some (mkPtok 33 "'\x00'" 4 15 10)) (mkPtok 6 ")" 4 22 11)))] (MetaField (mkSpan (mkPtok 12 "char[" 4 24 12) (mkPtok 40 "," 4 40 16)) None (mkMetaDecl (mkSpan (mkPtok 12 "char[" 4 24 12) (mkPtok 40 "," 4 40 16)) (TyFixed (mkSpan (mkPtok 12 "char[" 4 24 12) (mkPtok 13 "]" 4 32 14)) (mkFixedString (mkSpan (mkPtok 12 "char[" 4 24 12) (mkPtok 13 "]" 4 32 14)) (mkPtok 12 "char[" 4 24 12) (mkPtok 30 "3" 4 30 13) (mkPtok 13 "]" 4 32 14))) (mkPtok 42 "price" 4 34 15) None (mkPtok 40 "," 4 40 16)))); (mkFieldWithAttr (mkSpan (mkPtok 15 "string" 5 4 18) (mkPtok 40 "," 5 15 20)) [] (MetaField (mkSpan (mkPtok 15 "string" 5 4 18) (mkPtok 40 "," 5 15 20)) None (mkMetaDecl (mkSpan (mkPtok 15 "string" 5 4 18) (mkPtok 40 "," 5 15 20)) (TyDynamic (mkSpan (mkPtok 15 "string" 5 4 18) (mkPtok 15 "string" 5 4 18)) (mkDynamicString (mkSpan (mkPtok 15 "string" 5 4 18) (mkPtok 15 "string" 5 4 18)) (mkPtok 15 "string" 5 4 18))) (mkPtok 42 "seq" 5 11 19) None (mkPtok 40 "," 5 15 20)))); (mkFieldWithAttr (mkSpan (mkPtok 9 "@tag(" 6 4 21) (mkPtok 40 "," 6 28 27)) [(FATag (mkSpan (mkPtok 9 "@tag(" 6 4 21) (mkPtok 6 ")" 6 12 23)) (mkTagAttr (mkSpan (mkPtok 9 "@tag(" 6 4 21) (mkPtok 6 ")" 6 12 23)) (mkPtok 9 "@tag(" 6 4 21) (mkPtok 30 "7" 6 10 22) (mkPtok 6 ")" 6 12 23)))] (MetaField (mkSpan (mkPtok 26 "i32" 6 14 24) (mkPtok 40 "," 6 28 27)) None (mkMetaDecl (mkSpan (mkPtok 26 "i32" 6 14 24) (mkPtok 40 "," 6 28 27)) (TyBasic (mkSpan (mkPtok 26 "i32" 6 14 24) (mkPtok 26 "i32" 6 14 24)) (mkBasicType (mkSpan (mkPtok 26 "i32" 6 14 24) (mkPtok 26 "i32" 6 14 24)) (mkPtok 26 "i32" 6 14 24))) (mkPtok 42 "leaves" 6 18 25) (Some (mkPtok 43 "``" 6 25 26)) (mkPtok 40 "," 6 28 27))))] (mkPtok 3 "}" 7 0 28))); (DPacket (mkPacketDef (mkSpan (mkPtok 35 "packet" 9 0 29) (mkPtok 3 "}" 12 0 44)) None (mkPtok 35 "packet" 9 0 29) (mkPtok 42 "Fill" 9 7 30) (mkPtok 2 "{" 9 12 31) [(mkFieldWithAttr (mkSpan (mkPtok 32 "@rightPad" 10 4 32) (mkPtok 40 "," 10 40 40)) [(FAPadding (mkSpan (mkPtok 32 "@rightPad" 10 4 32) (mkPtok 6 ")" 10 20 35)) (mkPaddingAttr (mkSpan (mkPtok 32 "@rightPad" 10 4 32) (mkPtok 6 ")" 10 20 35)) (mkPtok 32 "@rightPad" 10 4 32) (mkPtok 8 "(" 10 14 33) (Some (mkPtok 33 "' '" 10 16 34)) (mkPtok 6 ")" 10 20 35)))] (MetaField (mkSpan (mkPtok 12 "char[" 10 22 36) (mkPtok 40 "," 10 40 40)) None (mkMetaDecl (mkSpan (mkPtok 12 "char[" 10 22 36) (mkPtok 40 "," 10 40 40)) (TyFixed (mkSpan (mkPtok 12 "char[" 10 22 36) (mkPtok 13 "]" 10 31 38)) (mkFixedString (mkSpan (mkPtok 12 "char[" 10 22 36) (mkPtok 13 "]" 10 31 38)) (mkPtok 12 "char[" 10 22 36) (mkPtok 30 "16" 10 28 37) (mkPtok 13 "]" 10 31 38))) (mkPtok 42 "symbol" 10 33 39) None (mkPtok 40 "," 10 40 40)))); (mkFieldWithAttr (mkSpan (mkPtok 42 "Trade" 11 4 41) (mkPtok 40 "," 11 13 43)) [] (ObjectField (mkSpan (mkPtok 42 "Trade" 11 4 41) (mkPtok 40 "," 11 13 43)) None (mkPtok 42 "Trade" 11 4 41) (Some (mkPtok 42 "px" 11 10 42)) None (mkPtok 40 "," 11 13 43)))] (mkPtok 3 "}" 12 0 44))); (DPacket (mkPacketDef (mkSpan (mkPtok 35 "packet" 14 0 45) (mkPtok 3 "}" 19 0 64)) None (mkPtok 35 "packet" 14 0 45) (mkPtok 42 "Trade" 14 7 46) (mkPtok 2 "{" 14 13 47) [(mkFieldWithAttr (mkSpan (mkPtok 22 "uint32" 15 4 48) (mkPtok 40 "," 15 18 50)) [] (MetaField (mkSpan (mkPtok 22 "uint32" 15 4 48) (mkPtok 40 "," 15 18 50)) None (mkMetaDecl (mkSpan (mkPtok 22 "uint32" 15 4 48) (mkPtok 40 "," 15 18 50)) (TyBasic (mkSpan (mkPtok 22 "uint32" 15 4 48) (mkPtok 22 "uint32" 15 4 48)) (mkBasicType (mkSpan (mkPtok 22 "uint32" 15 4 48) (mkPtok 22 "uint32" 15 4 48)) (mkPtok 22 "uint32" 15 4 48))) (mkPtok 42 "seq_no" 15 11 49) None (mkPtok 40 "," 15 18 50)))); (mkFieldWithAttr (mkSpan (mkPtok 20 "u8" 16 4 51) (mkPtok 40 "," 16 9 53)) [] (MetaField (mkSpan (mkPtok 20 "u8" 16 4 51) (mkPtok 40 "," 16 9 53)) None (mkMetaDecl (mkSpan (mkPtok 20 "u8" 16 4 51) (mkPtok 40 "," 16 9 53)) (TyBasic (mkSpan (mkPtok 20 "u8" 16 4 51) (mkPtok 20 "u8" 16 4 51)) (mkBasicType (mkSpan (mkPtok 20 "u8" 16 4 51) (mkPtok 20 "u8" 16 4 51)) (mkPtok 20 "u8" 16 4 51))) (mkPtok 42 "b" 16 7 52) None (mkPtok 40 "," 16 9 53)))); (mkFieldWithAttr (mkSpan (mkPtok 21 "u16" 17 4 54) (mkPtok 40 "," 17 13 56)) [] (MetaField (mkSpan (mkPtok 21 "u16" 17 4 54) (mkPtok 40 "," 17 13 56)) None (mkMetaDecl (mkSpan (mkPtok 21 "u16" 17 4 54) (mkPtok 40 "," 17 13 56)) (TyBasic (mkSpan (mkPtok 21 "u16" 17 4 54) (mkPtok 21 "u16" 17 4 54)) (mkBasicType (mkSpan (mkPtok 21 "u16" 17 4 54) (mkPtok 21 "u16" 17 4 54)) (mkPtok 21 "u16" 17 4 54))) (mkPtok 42 "code" 17 8 55) None (mkPtok 40 "," 17 13 56)))); (mkFieldWithAttr (mkSpan (mkPtok 21 "uint16" 18 4 57) (mkPtok 40 "," 18 59 63)) [] (CheckSumField (mkSpan (mkPtok 21 "uint16" 18 4 57) (mkPtok 40 "," 18 59 63)) (mkChecksumFieldDecl (mkSpan (mkPtok 21 "uint16" 18 4 57) (mkPtok 40 "," 18 59 63)) (Some (TyBasic (mkSpan (mkPtok 21 "uint16" 18 4 57) (mkPtok 21 "uint16" 18 4 57)) (mkBasicType (mkSpan (mkPtok 21 "uint16" 18 4 57) (mkPtok 21 "uint16" 18 4 57)) (mkPtok 21 "uint16" 18 4 57)))) (mkPtok 42 "Checksum" 18 11 58) (mkCalculatedFrom (mkSpan (mkPtok 5 "@calculatedFrom(" 18 20 59) (mkPtok 6 ")" 18 45 61)) (mkPtok 5 "@calculatedFrom(" 18 20 59) (mkPtok 31 """CRC16""" 18 37 60) (mkPtok 6 ")" 18 45 61)) (Some (mkPtok 43 "`two words`" 18 47 62)) (mkPtok 40 "," 18 59 63))))] (mkPtok 3 "}" 19 0 64)))]).
-Eval vm_compute in ("<<<W208_alias_short>>>" ++ sh_escaped (render (rw_alias_short t208)) "").
-Eval vm_compute in ("<<<W208_alias_long>>>" ++ sh_escaped (render (rw_alias_long t208)) "").
-Eval vm_compute in ("<<<W208_alias_long_opts>>>" ++ sh_escaped (render (rw_alias_long_opts t208)) "").
-Eval vm_compute in ("<<<W208_zchar>>>" ++ sh_escaped (render (rw_zchar t208)) "").
-Eval vm_compute in ("<<<W208_drop_default_pad>>>" ++ sh_escaped (render (rw_drop_default_pad t208)) "").
-Eval vm_compute in ("<<<W208_add_default_pad>>>" ++ sh_escaped (render (rw_add_default_pad t208)) "").
-Eval vm_compute in ("<<<W208_prefix_attr>>>" ++ sh_escaped (render (rw_prefix_attr t208)) "").
-Eval vm_compute in ("<<<W208_default_options>>>" ++ sh_escaped (render (rw_default_options t208)) "").
-Eval vm_compute in ("<<<W208_expand_keys>>>" ++ sh_escaped (render (rw_expand_keys t208)) "").
-Eval vm_compute in ("<<<W208_inline_meta>>>" ++ sh_escaped (render (rw_inline_meta t208)) "").
-Eval vm_compute in ("<<<W208_seps_all>>>" ++ sh_escaped (render (rw_seps_all t208)) "").
-Eval vm_compute in ("<<<W208_seps_none>>>" ++ sh_escaped (render (rw_seps_none t208)) "").
-Eval vm_compute in ("<<<W208_drop_docs>>>" ++ sh_escaped (render (rw_drop_docs t208)) "").
